@@ -5,7 +5,7 @@
    integer-part string is the real decimal string (Coq's DecimalString).  No proofs in this file. *)
 From Coq Require Import ZArith String List DecimalString DecimalZ.
 Import ListNotations.
-Open Scope Z_scope.
+Local Open Scope Z_scope.
 
 Definition MICRO : Z := 1000000.
 
